@@ -17,6 +17,23 @@
      fmt      output format of the logger ("logfmt", "json", "color")
      base     all the OTHER global flags ("std" factory set, "empty", "all")
      inp      shape of message and arguments ("plain", "kv", "attr") - an input class
+     dst      WHERE the record goes - a destination class (DstCfg): recording writers ("rec"),
+              the package default writers ("dflt"), io.Discard for the normal and/or the error
+              device ("discN", "discE", "discBoth"), destination lists emptied again ("emptied":
+              every writer that was added is removed), per-level writers for Panic/Fatal
+              ("lvlrec" recording, "lvldisc" io.Discard, "lvlemptied" added and removed again),
+              a list with io.Discard next to a recording writer ("mixed")
+     size     0 = the short message of the input class, otherwise the exact length of the
+              message in bytes (65535, 65536, 65537, ~100 KiB, ~300 KiB)
+
+   Termination does not depend on dst or size: the statement's outcome is a function of
+   severity, logger level, the two flags and the process mode only (TerminatesK / OutcomeK take
+   nothing else), and DestinationsDoNotMatter checks the same of the mechanism.  The clause
+   "writes its complete record first" can be OBSERVED only where a recording writer is among
+   the destinations of the severity (Recording); for observations it is evaluated there and
+   skipped elsewhere (an io.Discard shows nothing), for the mechanism it is checked everywhere
+   (`written` counts complete records handed to the destination list, whatever it contains).
+   "Complete" and "the message as panic value" mean the whole message whatever its size.
 
    The property statement is written twice:
 
@@ -44,18 +61,25 @@
        OnlyWhenStated         termination only for Panic/Fatal, admitted, ~ni, (~testing \/ ia)
        FinalMatchesStatement  every finished call ended exactly as Expected(cell) says
        NotAdmittedSilent      a call that is not admitted writes nothing
+       DestinationsDoNotMatter  the way the call ends is the same for every destination class
+                              and every message size (twin cells, same severity/level/flags/mode)
        TermOrder (action)     the terminating step is a different, later step than the write
        NothingAfterEnd (action) no step is taken from a finished/terminated call
    `Mut` selects deliberately wrong variants of the mechanism; the check runs them to show that
-   each invariant can fail (non-vacuity).  Mut = "none" is the documented mechanism.          *)
+   each invariant can fail (non-vacuity); two of them make the outcome depend on the destination
+   class ("discardGate") / the message size ("truncate").  Mut = "none" is the documented
+   mechanism.                                                                                 *)
 EXTENDS Levels, Json, SequencesExt
 
 CONSTANTS
     LoggerLevels,    \* logger levels explored (subset of 0..MaxLevel)
-    Dims,            \* <<fmt, base, inp>> triples explored for Panic/Fatal severities: the full product
-                     \* of {"logfmt","json","color"} x {"std","empty","all"} x {"plain","kv","attr"}, or
-                     \* a pairwise-covering subset of it
-    NegDims,         \* <<fmt, base, inp>> triples explored for the other severities (negative cases)
+    Dims,            \* <<fmt, base, inp, dst, size>> tuples explored for Panic/Fatal severities: the product
+                     \* of {"logfmt","json","color"} x {"std","empty","all"} x {"plain","kv","attr",..} with
+                     \* the default <<"rec", 0>>, or a pairwise-covering subset of it, plus tuples that
+                     \* vary the destination class and the message size
+    NegDims,         \* tuples explored for the other severities (negative cases)
+    WideLevels,      \* logger levels crossed with the tuples whose dst/size is not the default
+                     \* (<<"rec", 0>>); subset of LoggerLevels
     Customs,         \* registered custom levels: [level -> level it is treated as]
     ExportFile,      \* "" or the file the table is exported to
     Mut              \* "none" or the name of a deliberately wrong mechanism (witness runs)
@@ -92,24 +116,68 @@ Carries(ep, rc, r) ==
     \/ ep = "Log" /\ rc \in MethodRecvs /\ r \in StdSevs
 Carriers == {t \in AllEPs \X (MethodRecvs \cup PkgRecvs) \X Severities : Carries(t[1], t[2], t[3])}
 
-\* Panic/Fatal severities are crossed with the <<format, base flags, input class>> triples of Dims;
-\* the other severities (negative cases) with those of NegDims.  (Cells is one set comprehension: TLC's \cup / UNION of large sets is quadratic.)
+(* Destination classes: what the logger's writer set looks like when the call is made, as the
+   lists of writer kinds ("rec" a recording writer, "discard" io.Discard) of the normal device,
+   the error device and the per-level list installed for Panic and for Fatal.  The worker
+   builds each class with the public API (SetWriter / SetErrorWriter / Add..Writer /
+   Remove..Writer / AddLevelWriter / RemoveLevelWriter); "dflt" is a logger without writers of
+   its own (it uses the package default writers, which record), "emptied" and "lvlemptied" get
+   their writers added and removed again.                                                     *)
+DstCfg ==
+    ("rec"        :> [normal |-> <<"rec">>,            error |-> <<"rec">>,            level |-> <<>>]) @@
+    ("dflt"       :> [normal |-> <<"rec">>,            error |-> <<"rec">>,            level |-> <<>>]) @@
+    ("discN"      :> [normal |-> <<"discard">>,        error |-> <<"rec">>,            level |-> <<>>]) @@
+    ("discE"      :> [normal |-> <<"rec">>,            error |-> <<"discard">>,        level |-> <<>>]) @@
+    ("discBoth"   :> [normal |-> <<"discard">>,        error |-> <<"discard">>,        level |-> <<>>]) @@
+    ("emptied"    :> [normal |-> <<>>,                 error |-> <<>>,                 level |-> <<>>]) @@
+    ("lvlrec"     :> [normal |-> <<"discard">>,        error |-> <<"discard">>,        level |-> <<"rec">>]) @@
+    ("lvldisc"    :> [normal |-> <<"rec">>,            error |-> <<"rec">>,            level |-> <<"discard">>]) @@
+    ("lvlemptied" :> [normal |-> <<"rec">>,            error |-> <<"rec">>,            level |-> <<>>]) @@
+    ("mixed"      :> [normal |-> <<"discard", "rec">>, error |-> <<"discard", "rec">>, level |-> <<>>])
+DstClasses == DOMAIN DstCfg
+MsgSizes == {0, 65535, 65536, 65537, 102400, 307200}
+DefaultDst == "rec"
+Wide(q) == q[4] # DefaultDst \/ q[5] # 0          \* the tuple varies destination or size
+
+\* the writers a record of severity r is handed to: a non-empty per-level list wins, otherwise
+\* the error device for the severities of property C03's error class, otherwise the normal device
+Dest(c) == LET g == DstCfg[c.dst]
+           IN IF Terminating(c.r) /\ g.level # <<>> THEN g.level
+              ELSE IF ErrClass(c.r, ErrDevInit) THEN g.error ELSE g.normal
+Has(seq, x) == \E k \in 1..Len(seq) : seq[k] = x
+Recording(c) == Has(Dest(c), "rec")           \* the record can be observed
+AllDiscarded(c) == ~Has(Dest(c), "rec")       \* io.Discard only, or no writer at all
+
+\* Panic/Fatal severities are crossed with the <<format, base flags, input class, destination class,
+\* message size>> tuples of Dims; the other severities (negative cases) with those of NegDims; tuples that
+\* vary destination or size with the logger levels of WideLevels, the default ones with LoggerLevels.
+\* The cells are numbered (CellSeq) rather than collected in a set of records: TLC sorts a set of
+\* n elements with O(n^2) moves unless they arrive in order, which is minutes for a million cells.
 Mk(t, l, n, a, tm, q) ==
     [ep |-> t[1], recv |-> t[2], r |-> t[3], L |-> l, ni |-> n, ia |-> a, testing |-> tm,
-     fmt |-> q[1], base |-> q[2], inp |-> q[3]]
+     fmt |-> q[1], base |-> q[2], inp |-> q[3], dst |-> q[4], size |-> q[5]]
 CarrierDims == ({t \in Carriers : Terminating(t[3])} \X Dims) \cup ({t \in Carriers : ~Terminating(t[3])} \X NegDims)
-Cells ==
-    {Mk(tq[1], l, n, a, tm, tq[2]) : tq \in CarrierDims, l \in LoggerLevels,
-                                     n \in BOOLEAN, a \in BOOLEAN, tm \in BOOLEAN}
+LevelsOf(q) == IF Wide(q) THEN WideLevels ELSE LoggerLevels
+CarrierDimLevels == {x \in CarrierDims \X LoggerLevels : x[2] \in LevelsOf(x[1][2])}
+CDL == SetToSeq(CarrierDimLevels)
+NCells == 8 * Len(CDL)
+CellIds == 1..NCells
+CellAt(k) == LET x == CDL[((k - 1) \div 8) + 1]
+                 b == (k - 1) % 8
+             IN Mk(x[1][1], x[2], (b \div 4) % 2 = 1, (b \div 2) % 2 = 1, b % 2 = 1, x[1][2])
+CellSeq == [k \in CellIds |-> CellAt(k)]         \* the table: every cell once
 
-\* membership in Cells without building the set
+\* "c is a cell of the table" without searching it
 IsCell(c) ==
-    /\ DOMAIN c = {"ep", "recv", "r", "L", "ni", "ia", "testing", "fmt", "base", "inp"}
+    /\ DOMAIN c = {"ep", "recv", "r", "L", "ni", "ia", "testing", "fmt", "base", "inp", "dst", "size"}
     /\ Carries(c.ep, c.recv, c.r)
-    /\ c.L \in LoggerLevels /\ c.ni \in BOOLEAN /\ c.ia \in BOOLEAN /\ c.testing \in BOOLEAN
-    /\ <<c.fmt, c.base, c.inp>> \in (IF Terminating(c.r) THEN Dims ELSE NegDims)
+    /\ c.ni \in BOOLEAN /\ c.ia \in BOOLEAN /\ c.testing \in BOOLEAN
+    /\ <<c.fmt, c.base, c.inp, c.dst, c.size>> \in (IF Terminating(c.r) THEN Dims ELSE NegDims)
+    /\ c.L \in LevelsOf(<<c.fmt, c.base, c.inp, c.dst, c.size>>)
 
-ASSUME \A c \in Cells : IsCell(c)
+ASSUME WideLevels \subseteq LoggerLevels
+ASSUME \A q \in Dims \cup NegDims : q[4] \in DstClasses /\ q[5] \in MsgSizes
+ASSUME \A k \in CellIds : IsCell(CellSeq[k])
 
 -----------------------------------------------------------------------------
 (* STATEMENT (the oracle) *)
@@ -120,12 +188,18 @@ Admitted(c) == Admit(c.L, c.r, FALSE, Treat)
 \* "An admitted Panic/Fatal call ... terminates.  Neither terminates when the call is not
 \*  admitted, when the no-interrupt flag is set, or under go test unless the interrupt-always
 \*  flag is set, and no other severity ever panics or exits."
-Terminates(c) == /\ Terminating(c.r)
-                 /\ Admitted(c)
-                 /\ ~c.ni
-                 /\ (~c.testing \/ c.ia)
+\*  - as a function of severity, logger level, the two flags and the process mode, and of nothing
+\*  else: where the record goes and how long the message is do not occur
+TerminatesK(r, L, ni, ia, testing) == /\ Terminating(r)
+                                      /\ Admit(L, r, FALSE, Treat)
+                                      /\ ~ni
+                                      /\ (~testing \/ ia)
+OutcomeK(r, L, ni, ia, testing) ==
+    IF ~TerminatesK(r, L, ni, ia, testing) THEN "ret" ELSE IF r = Panic THEN "panic" ELSE "exit"
 
-Outcome(c) == IF ~Terminates(c) THEN "ret" ELSE IF c.r = Panic THEN "panic" ELSE "exit"
+Key(c) == <<c.r, c.L, c.ni, c.ia, c.testing>>
+Terminates(c) == TerminatesK(c.r, c.L, c.ni, c.ia, c.testing)
+Outcome(c) == OutcomeK(c.r, c.L, c.ni, c.ia, c.testing)
 
 \* "writes its complete record": every admitted Panic/Fatal call, terminating or not
 MustWrite(c) == Terminating(c.r) /\ Admitted(c)
@@ -141,29 +215,42 @@ ExpectedFin(c) == CASE Outcome(c) = "panic" -> PanicWith("msg")
                     [] OTHER -> Ret
 
 Expected(c) == [out |-> Outcome(c), status |-> ExpectedFin(c).status, pv |-> ExpectedFin(c).pv,
-                rec |-> IF MustWrite(c) THEN "complete" ELSE "any"]
+                rec |-> IF ~MustWrite(c) THEN "any" ELSE IF Recording(c) THEN "complete" ELSE "unobservable"]
 
 (* The property as predicates over a final observation: c the cell, f how the call ended
-   ([out, status, pv]), w the number of complete records written before it ended.            *)
-WriteThenTerminateP(c, f, w) == f.out \in {"panic", "exit"} => w = 1
+   ([out, status, pv]; pv = "msg" iff the panic value is a string equal to the WHOLE message), w
+   the number of complete records written before it ended (complete = the whole message ..).
+   `everywhere` = TRUE: w counts what was handed to the destination list (the mechanism machine);
+   FALSE: w counts what recording writers received (an observation of the library), and the
+   "written first" clause is evaluated only where the cell has a recording destination.       *)
+Seen(c, everywhere) == everywhere \/ Recording(c)
+WriteThenTerminateP(c, f, w, everywhere) == (f.out \in {"panic", "exit"} /\ Seen(c, everywhere)) => w = 1
 OnlyWhenStatedP(c, f, w) == f.out \in {"panic", "exit"} => Terminates(c)
-FinalMatchesStatementP(c, f, w) ==
+FinalMatchesStatementP(c, f, w, everywhere) ==
     /\ f.out = Outcome(c)
     /\ f.out = "exit" => f.status = ExitStatus
     /\ f.out = "panic" => f.pv = "msg"
-    /\ MustWrite(c) => w = 1
+    /\ (MustWrite(c) /\ Seen(c, everywhere)) => w = 1
 
+\* an observation of the library (everywhere = FALSE)
 Failed(c, f, w) ==
-    (IF WriteThenTerminateP(c, f, w) THEN {} ELSE {"WriteThenTerminate"}) \cup
+    (IF WriteThenTerminateP(c, f, w, FALSE) THEN {} ELSE {"WriteThenTerminate"}) \cup
     (IF OnlyWhenStatedP(c, f, w) THEN {} ELSE {"OnlyWhenStated"}) \cup
-    (IF FinalMatchesStatementP(c, f, w) THEN {} ELSE {"FinalMatchesStatement"})
+    (IF FinalMatchesStatementP(c, f, w, FALSE) THEN {} ELSE {"FinalMatchesStatement"})
 
 -----------------------------------------------------------------------------
 (* MECHANISM (what the documentation / code structure says happens, step by step) *)
 
 \* every entry point asks Level.Enabled before it logs (log1, *Context, LogAttrs, Logit, logctxctx)
+\* ("discardGate": a wrong gate that also skips the call when nothing would keep the record)
 Gate(c) == IF Mut = "noGate" /\ c.ep = "FatalContext" THEN TRUE
+           ELSE IF Mut = "discardGate" /\ AllDiscarded(c) THEN FALSE
            ELSE EnabledMech(c.L, c.r, FALSE, Treat)
+
+\* the record is formatted from the message and handed to the destination list: complete records
+\* handed over ("truncate": a wrong mechanism that clamps a long message and goes on with the clamped one)
+Clamped(c) == Mut = "truncate" /\ c.size > 65536
+PrintMech(c) == IF Clamped(c) THEN 0 ELSE 1
 
 \* the tail of Entry.logContext, after the record was printed:
 \*   if !inTesting || IsAnyBitsSet(Linterruptalways) {
@@ -174,7 +261,7 @@ NoInterrupt(c) == IF Mut = "anyBits" THEN c.ni \/ c.ia ELSE c.ni
 TailMech(c) ==
     IF ~c.testing \/ c.ia
     THEN IF NoInterrupt(c) THEN Ret
-         ELSE IF c.r = Panic THEN PanicWith(IF Mut = "panicValue" /\ c.inp # "plain" THEN "other" ELSE "msg")
+         ELSE IF c.r = Panic THEN PanicWith(IF (Mut = "panicValue" /\ c.inp # "plain") \/ Clamped(c) THEN "other" ELSE "msg")
          ELSE IF c.r = Fatal THEN ExitWith(IF Mut = "status" THEN 3 ELSE ExitStatus)
          ELSE IF Mut = "errTerm" /\ c.r = Error /\ c.ia THEN ExitWith(ExitStatus)
          ELSE Ret
@@ -190,7 +277,7 @@ Finish(p, f) ==
     ELSE IF After(cell, p) = "end" THEN pc' = "done" /\ fin' = Ret
     ELSE pc' = After(cell, p) /\ fin' = fin
 
-Init == /\ cell \in Cells
+Init == /\ \E k \in CellIds : cell = CellSeq[k]
         /\ pc = "call"
         /\ written = 0
         /\ fin = NoFin
@@ -201,7 +288,7 @@ DoGate == /\ pc = "call"
              ELSE pc' = "done" /\ fin' = Ret
 
 DoPrint == /\ pc = "print"
-           /\ written' = written + 1
+           /\ written' = written + PrintMech(cell)
            /\ cell' = cell
            /\ Finish("print", Ret)
 
@@ -210,6 +297,9 @@ DoTail == /\ pc = "tail"
           /\ Finish("tail", TailMech(cell))
 
 Next == DoGate \/ DoPrint \/ DoTail
+
+\* how the mechanism ends the call of cell c, as a function (documented order; used for twin cells)
+MechFin(c) == IF ~Gate(c) THEN Ret ELSE TailMech(c)
 
 Spec == Init /\ [][Next]_vars
 
@@ -222,10 +312,23 @@ TypeOK == /\ IsCell(cell)
           /\ fin.out \in {"none", "ret", "panic", "exit"}
           /\ (pc = "done") = (fin.out # "none")
 
-WriteThenTerminate == WriteThenTerminateP(cell, fin, written)
+WriteThenTerminate == WriteThenTerminateP(cell, fin, written, TRUE)
 OnlyWhenStated == OnlyWhenStatedP(cell, fin, written)
-FinalMatchesStatement == pc = "done" => FinalMatchesStatementP(cell, fin, written)
+FinalMatchesStatement == pc = "done" => FinalMatchesStatementP(cell, fin, written, TRUE)
 NotAdmittedSilent == (pc = "done" /\ ~Admitted(cell)) => written = 0
+
+\* Termination does not depend on where the record goes or on how long the message is: the call
+\* of every twin cell (same entry point, severity, level, flags, mode; any destination class, any
+\* message size) ends the way this one did.
+\* (twins: every destination class with the short message and every size with recording writers;
+\*  for Panic/Fatal severities also every <<destination class, size>> pair that occurs in the table)
+Twin(c, dz) == [c EXCEPT !.dst = dz[1], !.size = dz[2]]
+TwinAxes == {<<d, 0>> : d \in DstClasses} \cup {<<DefaultDst, z>> : z \in MsgSizes}
+TwinPairs == TwinAxes \cup {<<q[4], q[5]>> : q \in Dims}
+DestinationsDoNotMatter ==
+    pc = "done" => \A dz \in (IF Terminating(cell.r) THEN TwinPairs ELSE TwinAxes) : MechFin(Twin(cell, dz)) = fin
+\* ... and the statement's outcome is a function of Key (severity, level, flags, mode) over the table
+ASSUME Cardinality({<<Key(CellSeq[k]), ExpectedFin(CellSeq[k])>> : k \in CellIds}) = Cardinality({Key(CellSeq[k]) : k \in CellIds})
 
 \* the terminating step is not the writing step, and the record is already out when it happens
 TermOrder == [][fin'.out \in {"panic", "exit"} => (written' = written /\ written = 1)]_vars
@@ -236,12 +339,13 @@ NothingAfterEnd == [][fin.out = "none"]_vars
 (* TABLE: the cells with the expected outcome, exported for replay on the library; and the
    sizes of the outcome classes (the check refuses to run on a table where one is empty).    *)
 
-Table == LET cs == SetToSeq(Cells)
-         IN [k \in 1..Len(cs) |-> cs[k] @@ [exp |-> Expected(cs[k])]]
+\* (Table and Stats take the index set as argument: TLC evaluates every argument-less constant
+\*  definition at start-up, in every run; only the run that exports the table needs them)
+Table(ids) == [k \in ids |-> CellSeq[k] @@ [exp |-> Expected(CellSeq[k])]]
 
-Count(P(_)) == Cardinality({c \in Cells : P(c)})
-Stats ==
-    [cells |-> Cardinality(Cells),
+Stats(ids) ==
+    LET Count(P(_)) == Cardinality({k \in ids : P(CellSeq[k])}) IN
+    [cells |-> Cardinality(ids),
      panic |-> Count(LAMBDA c : Outcome(c) = "panic"),
      exit |-> Count(LAMBDA c : Outcome(c) = "exit"),
      notAdmitted |-> Count(LAMBDA c : Terminating(c.r) /\ ~Admitted(c)),
@@ -249,8 +353,11 @@ Stats ==
      heldByTesting |-> Count(LAMBDA c : MustWrite(c) /\ ~c.ni /\ c.testing /\ ~c.ia),
      otherSeverity |-> Count(LAMBDA c : ~Terminating(c.r)),
      otherSeverityAdmittedUnheld |-> Count(LAMBDA c : ~Terminating(c.r) /\ Admitted(c) /\ ~c.ni /\ (~c.testing \/ c.ia)),
-     customAdmittedUnheld |-> Count(LAMBDA c : c.r \in DOMAIN Customs /\ Admitted(c) /\ ~c.ni /\ (~c.testing \/ c.ia))]
+     customAdmittedUnheld |-> Count(LAMBDA c : c.r \in DOMAIN Customs /\ Admitted(c) /\ ~c.ni /\ (~c.testing \/ c.ia)),
+     terminatesUnobservable |-> Count(LAMBDA c : Terminates(c) /\ ~Recording(c)),
+     terminatesOtherDestination |-> Count(LAMBDA c : Terminates(c) /\ Recording(c) /\ c.dst # DefaultDst),
+     panicLongMessage |-> Count(LAMBDA c : Outcome(c) = "panic" /\ c.size > 65536),
+     exitLongMessage |-> Count(LAMBDA c : Outcome(c) = "exit" /\ c.size > 65536)]
 
-ASSUME PrintT("@@stats " \o ToJson(Stats))
-ASSUME ExportFile = "" \/ JsonSerialize(ExportFile, Table)
+ASSUME ExportFile = "" \/ (PrintT("@@stats " \o ToJson(Stats(CellIds))) /\ JsonSerialize(ExportFile, Table(CellIds)))
 =============================================================================
